@@ -37,6 +37,9 @@ def main():
     os.environ['JV_SENTINEL_DIR'] = sentinel
     os.chdir(os.path.join(root, spec['cwd']) if spec.get('cwd') else root)
 
+    if spec.get('host_path_empty_entry'):
+        # like an interactive session, `python -c` or an embedding host: '' is on sys.path
+        sys.path.insert(1, '')
     gc_auto = spec.get('gc_auto', False)
     if not gc_auto:
         gc.disable()
@@ -248,8 +251,12 @@ class Subject:
         if name in (None, 'default'):
             return None
         if name not in self.envs:
-            from jedi.api.environment import create_environment
-            self.envs[name] = create_environment(sys.executable, safe=False)
+            if name == 'interpreter':
+                # analysis of compiled objects happens inside the host process itself
+                self.envs[name] = self.jedi.InterpreterEnvironment()
+            else:
+                from jedi.api.environment import create_environment
+                self.envs[name] = create_environment(sys.executable, safe=False)
         return self.envs[name]
 
     def get_project(self, p):
@@ -276,7 +283,8 @@ class Subject:
     def make_script(self, op):
         kw = {}
         if op.get('path') is not None:
-            kw['path'] = self.abspath(op['path'])
+            # relpath: the caller addresses the file relative to the process cwd (which is the world then)
+            kw['path'] = op['path'] if op.get('relpath') else self.abspath(op['path'])
         env = self.get_env(op.get('env'))
         if env is not None:
             kw['environment'] = env
